@@ -110,6 +110,16 @@ structure C02MemoSpec where
   storeFallback : Bool      -- result of `rec_fallback` (foreign objects, MRO fallback) is stored
   deriving Repr, DecidableEq, Inhabited
 
+/-- body of the handler `map_foreign` sends numpy arrays to, as recognised by the reader
+(`extract/evaluator.py: read_array_handler`) -/
+inductive C02ArrayBody where
+  /-- `result = numpy.empty(expr.shape, dtype=object); for i in numpy.ndindex(expr.shape):
+  result[i] = self.rec(expr[i]); return result` (in the handler of that name) -/
+  | ndindexFill (handler : String)
+  /-- anything else (its source text) -/
+  | other (src : String)
+  deriving Repr, DecidableEq, Inhabited
+
 structure C02EvalTable where
   classes : List C02ClassEntry
   handlers : List C02HandlerEntry
@@ -131,6 +141,8 @@ structure C02EvalTable where
   contextAttr : String
   /-- `evaluate` / `evaluate_kw` ↦ default mapper class -/
   entryPoints : List (String × String)
+  /-- the numpy-array handler -/
+  arrayBody : C02ArrayBody := .other ""
   deriving Repr, Inhabited
 
 /-! ### Meaning of the operators named in a table -/
@@ -639,5 +651,31 @@ def c02RunHistT (T : C02EvalTable) (cached : Bool) (env : Env) : List Expr → E
   | e :: es, s =>
     let (r, s') := c02EvalGT T cached env e s
     r :: c02RunHistT T cached env es s'
+
+/-! ### numpy object arrays (foreign objects, `map_foreign` → the numpy rule) -/
+
+/-- a numpy object array as the model sees it: its shape and its entries in row-major order
+(the order of `numpy.ndindex(shape)`) -/
+structure C02Array (α : Type) where
+  shape : List Nat
+  flat : List α
+  deriving Repr
+
+/-- The numpy-array handler of table `T` run on an array; `none` when the reader did not recognise
+the handler body.  `ndindexFill`: a fresh object array of the same shape, filled index by index
+in row-major order with `self.rec(entry)` — the list handler's loop on the entries, first error
+wins.  An ndarray is unhashable, so the memoizing mapper's cache key raises before dispatch. -/
+def c02ArrayRun (T : C02EvalTable) (cached : Bool) (env : Env) (a : C02Array Expr) :
+    EvM (C02Array Value) := fun s =>
+  if c02MemoActive T cached && T.memo.keyExpr then (.error .typeError, s)
+  else match c02ListRuns (c02RunsT T cached env a.flat) s with
+    | (.ok vs, s') => (.ok ⟨a.shape, vs⟩, s')
+    | (.error e, s') => (.error e, s')
+
+def c02ArrayT (T : C02EvalTable) (cached : Bool) (env : Env) (a : C02Array Expr) :
+    Option (EvM (C02Array Value)) :=
+  match T.arrayBody with
+  | .other _ => none
+  | .ndindexFill _ => some (c02ArrayRun T cached env a)
 
 end PV
